@@ -1,25 +1,23 @@
-/* free-symbol cos/sin shared by the transform harnesses (C10, C06, C09): CBMC: arbitrary integers (c, s) != (0, 0);
-   native / -DAXIS_ONLY: the three non-identity rotations by k*pi/2, which an exact angle realises. */
+/* free-symbol cos/sin shared by the transform harnesses (C10, C11, C06, C09): arbitrary integers (c, s) != (0, 0) in every mode. */
 typedef int32_t OI;
 static OI C_ = 1, S_ = 0;
 #ifndef REAL
 NUM ie_cos(NUM a) { return NUM_OF_INT(C_); }
 NUM ie_sin(NUM a) { return NUM_OF_INT(S_); }
+#else
+/* replay against the real code: the link uses --wrap=cos,--wrap=sin, so the real code's calls to libm return the
+   counterexample's (c, s); everything else is the real compiled code */
+double __wrap_cos(double a) { return (double)C_; }
+double __wrap_sin(double a) { return (double)S_; }
+void __wrap_sincos(double a, double* s, double* c) { *s = (double)S_; *c = (double)C_; }    /* gcc fuses sin+cos into sincos */
 #endif
 static NUM pick_rotation(int rot0) {
   if (rot0) { C_ = 1; S_ = 0; return NUM_OF_INT(0); }
-#if defined(__CPROVER__) && !defined(AXIS_ONLY)
   C_ = (OI)nd_range(-2, 2); S_ = (OI)nd_range(-2, 2); ASSUME(C_ != 0 || S_ != 0);
-  return NUM_OF_INT(1);
-#else
-  { int k = (int)nd_range(1, 3); C_ = k == 2 ? -1 : 0; S_ = k == 1 ? 1 : k == 3 ? -1 : 0;
-#ifdef REAL
-    return k == 1 ? 1.5707963267948966 : k == 2 ? 3.141592653589793 : -1.5707963267948966;
-#else
-    return NUM_OF_INT(1);
+#ifdef AXIS_ONLY
+  ASSUME((C_ == 0 && (S_ == 1 || S_ == -1)) || (S_ == 0 && C_ == -1));      /* optional: rotations an exact angle k*pi/2 realises */
 #endif
-  }
-#endif
+  return NUM_OF_INT(1);     /* any non-zero angle: its cosine and sine are the free symbols */
 }
 #define VX(v) ((v).f0.f0.f0)
 #define VY(v) ((v).f0.f0.f1)
